@@ -60,6 +60,8 @@ structure BridgeCase where
   lim : Limiter
   src : List ReadEv
   tgt : List ReadEv
+  sw : List WriteEv := []
+  tw : List WriteEv := []
 
 def parseBridge : List String → Option BridgeCase
   | "lim" :: l :: "src" :: n :: ts => do
@@ -69,8 +71,18 @@ def parseBridge : List String → Option BridgeCase
     match ts with
     | "tgt" :: m :: ts => do
       let m ← m.toNat?
-      let (tgt, _) ← parseReads true m ts
-      pure ⟨lim, src, tgt⟩
+      let (tgt, ts) ← parseReads true m ts
+      match ts with
+      | "sw" :: k :: ts => do
+        let k ← k.toNat?
+        let (sw, ts) ← parseWrites k ts
+        match ts with
+        | "tw" :: j :: ts => do
+          let j ← j.toNat?
+          let (tw, _) ← parseWrites j ts
+          pure ⟨lim, src, tgt, sw, tw⟩
+        | _ => pure ⟨lim, src, tgt, sw, []⟩
+      | _ => pure ⟨lim, src, tgt, [], []⟩
     | _ => none
   | _ => none
 
@@ -95,8 +107,64 @@ def parseBridgeObs : List String → Option BridgeObs
     pure ⟨tt, ts, ← bit a, ← bit b, ← bit r, ← bit sc, ← bit tc, ← bit rm, ← s.toNat?, ← rv.toNat?⟩
   | _ => none
 
+/-! reattach lim <L|-> gens <g> (at <a> src <n> …)*g tgt <m> …
+    obs: tt <hex> ret <b> sc <b> tc <b> rem <b> sent <n> | ps <g> <hex>*g recv <n> -/
+structure ReattachCase where
+  lim : Limiter
+  gens : List SrcGen
+  tgt : List ReadEv
+
+def parseGens : Nat → List String → Option (List SrcGen × List String)
+  | 0, ts => some ([], ts)
+  | k + 1, "at" :: a :: "src" :: n :: ts => do
+    let a ← a.toNat?
+    let n ← n.toNat?
+    let (rd, ts) ← parseReads true n ts
+    let (r, ts') ← parseGens k ts
+    pure (⟨rd, a⟩ :: r, ts')
+  | _, _ => none
+
+def parseReattach : List String → Option ReattachCase
+  | "lim" :: l :: "gens" :: g :: ts => do
+    let lim ← limOf l
+    let g ← g.toNat?
+    let (gens, ts) ← parseGens g ts
+    match ts with
+    | "tgt" :: m :: ts => do
+      let m ← m.toNat?
+      let (tgt, _) ← parseReads true m ts
+      pure ⟨lim, gens, tgt⟩
+    | _ => none
+  | _ => none
+
+def parseHexes : Nat → List String → Option (List Bytes × List String)
+  | 0, ts => some ([], ts)
+  | k + 1, h :: ts => do
+    let b ← bytesOfHex h
+    let (r, ts') ← parseHexes k ts
+    pure (b :: r, ts')
+  | _, _ => none
+
+def parseReattachObs : List String → Option ReattachObs
+  | "tt" :: tt :: "ret" :: r :: "sc" :: sc :: "tc" :: tc :: "rem" :: rm :: "sent" :: s :: "|" :: "ps" :: k :: ts => do
+    let tt ← bytesOfHex tt
+    let k ← k.toNat?
+    let (ps, ts) ← parseHexes k ts
+    match ts with
+    | ["recv", rv] => pure ⟨tt, ps, ← bit r, ← bit sc, ← bit tc, ← bit rm, ← s.toNat?, ← rv.toNat?⟩
+    | _ => none
+  | _ => none
+
+def b01 (b : Bool) : String := if b then "1" else "0"
+
 def runModel (ts : List String) : String :=
   match ts with
+  | "reattach" :: rest =>
+    match parseReattach rest with
+    | some c =>
+      let o := reattachObs c.lim c.gens c.tgt
+      s!"tt {hexOfBytes o.toTarget} ret {b01 o.returned} sc {b01 o.curSrcClosed} tc {b01 o.tgtClosed} rem {b01 o.removed} sent {o.sent}"
+    | none => "bad-case"
   | "copy" :: rest =>
     match parseCopy rest with
     | some c =>
@@ -111,9 +179,24 @@ def runHolds (caseToks obsToks : List String) : String :=
     match parseCopy rest, parseCopyObs obsToks with
     | some c, some o => boolStr (holdsCopy c.rd c.wr o)
     | _, _ => "false"
+  | "reattach" :: rest =>
+    match parseReattach rest, parseReattachObs obsToks with
+    | some c, some o => boolStr (holdsReattach c.gens c.tgt (pausePoints c.lim c.gens [] {}) o)
+    | _, _ => "false"
+  | "reattachfree" :: rest =>
+    match parseReattach rest, parseReattachObs obsToks with
+    | some c, some o => boolStr (holdsReattachFree c.gens c.tgt o)
+    | _, _ => "false"
+  | "bridgestall" :: rest =>
+    -- obs: <bridge obs> cds <b> stalled <b>: while the statistics backend was stalled, both ends were closed
+    match parseBridge rest, parseBridgeObs (obsToks.takeWhile (· != "cds")), obsToks.dropWhile (· != "cds") with
+    | some c, some o, ["cds", cds, "stalled", st] =>
+      boolStr (holdsBridge c.src c.tgt o && holdsNoSpontaneousClose c.src c.tgt c.sw c.tw o && (st != "1" || cds == "1")
+        && (cds == "1" || cds == "0"))
+    | _, _, _ => "false"
   | "bridge" :: rest =>
     match parseBridge rest, parseBridgeObs obsToks with
-    | some c, some o => boolStr (holdsBridge c.src c.tgt o)
+    | some c, some o => boolStr (holdsBridge c.src c.tgt o && holdsNoSpontaneousClose c.src c.tgt c.sw c.tw o)
     | _, _ => "false"
   | _ => "bad-case"
 
